@@ -48,7 +48,7 @@ Definition proto_sresp (c : scfg) (p : proto_resp) : result (Z * Z * option Z * 
       | Classic, _, _ => Ok dp
       | Paris, _, _ => Ok ac
       | Dublin, _, false => Ok id
-      | Dublin, _, true => add16 (initial_sequence c) plen
+      | Dublin, _, true => Ok ((initial_sequence c + plen) mod 65536)   (* wrapping_add: fix for C04 *)
       end in
     let '(e, a) := match multipath c, is_v6 (target_addr c) with
                    | Dublin, false => (Some ex, Some ac)
